@@ -244,8 +244,80 @@ pub fn check(r: &mut Report, s: &Scn) {
     if !s.unified && s.segs.iter().all(|g| g.from_a == s.segs[0].from_a) {
         tracker_route(r, s, &exp);
     }
+    rejected_segment_leaves_no_trace(r, s, &got);
     r.outcome(&sig);
     r.sample(|| json!({"scenario": s, "reports": got.iter().map(|g| (g.client_uptime.as_ref().map(|u| u.freq), g.server_uptime.as_ref().map(|u| u.freq))).collect::<Vec<_>>()}));
+}
+
+/// A segment the analyzer refuses (an illegal flag combination: SYN+FIN, SYN+RST, SYN+ACK+FIN, FIN+RST+ACK, none of
+/// SYN/ACK/FIN/RST; or an IP fragment) carries a timestamp option like any other. It is not part of the connection: the same
+/// scenario with one such segment of the same sender in front of one of its segments (kind and position chosen by the
+/// scenario's content, so that all combinations occur across the enumeration) must report exactly what it reports without.
+fn rejected_segment_leaves_no_trace(r: &mut Report, s: &Scn, got: &[TcpRes]) {
+    if s.segs.is_empty() {
+        return;
+    }
+    let sel = s.segs.iter().fold(s.pa as u64, |a, g| a.wrapping_mul(31).wrapping_add(g.tsval as u64).wrapping_add(g.at_ms).wrapping_add(g.flags as u64)) as usize;
+    const KINDS: [(u8, bool); 6] = [(0x03, false), (0x06, false), (0x13, false), (0x15, false), (0x08, false), (0x10, true)];
+    let (flags, fragment) = KINDS[sel % KINDS.len()];
+    let pos = (sel / KINDS.len()) % s.segs.len();
+    let next = &s.segs[pos];
+    let noise = {
+        let (src, dst, sp, dp) = if next.from_a { (1, 2, s.pa, s.pb) } else { (2, 1, s.pb, s.pa) };
+        pkt::build(&Spec { v6: s.v6, src, dst, sport: sp, dport: dp, flags, mf: fragment && !s.v6, seq: 999, ack: if flags & ACK != 0 { 77 } else { 0 }, opts: ts_opts(next.tsval.wrapping_sub(3), 0), payload: vec![b'x'], ..Spec::default() })
+    };
+    if fragment && s.v6 {
+        return;
+    }
+    r.exec(s.segs.len() as u64 + 1);
+    let with = guarded(|| {
+        let mut out = vec![];
+        if s.unified {
+            let cfg = huginn_net::AnalysisConfig { http_enabled: false, tcp_enabled: true, tls_enabled: false, matcher_enabled: false };
+            let mut a = huginn_net::HuginnNet::new(None, 16, Some(cfg)).expect("analyzer");
+            for (i, g) in s.segs.iter().enumerate() {
+                set_clock(g.at_ms);
+                if i == pos {
+                    let n = crate::drv::uni_res(&a.analyze_tcp(&noise)).tcp;
+                    out.push((true, n));
+                }
+                out.push((false, crate::drv::uni_res(&a.analyze_tcp(&frame(s, g))).tcp));
+            }
+        } else {
+            let mut a = TcpSeq::new(None, 16);
+            for (i, g) in s.segs.iter().enumerate() {
+                set_clock(g.at_ms);
+                if i == pos {
+                    out.push((true, a.feed(&noise)));
+                }
+                out.push((false, a.feed(&frame(s, g))));
+            }
+        }
+        out
+    });
+    let with = match with {
+        Ok(w) => w,
+        Err(p) => {
+            r.dev("C19/panic", "panic", || json!({"scenario": s, "detail": p, "refused_segment_flags": flags, "before_packet": pos}));
+            return;
+        }
+    };
+    let upt = |t: &TcpRes| (t.client_uptime.clone(), t.server_uptime.clone());
+    if let Some((_, n)) = with.iter().find(|x| x.0) {
+        if n.syn.is_some() || n.syn_ack.is_some() {
+            // the segment was not refused after all: nothing to compare
+            return;
+        }
+        if n.client_uptime.is_some() || n.server_uptime.is_some() {
+            r.dev("C19/estimate-reported-for-a-refused-segment", "refused-segment", || json!({"scenario": s, "refused_segment_flags": flags, "fragment": fragment, "before_packet": pos, "actual": n}));
+        }
+    }
+    let rest: Vec<_> = with.iter().filter(|x| !x.0).map(|x| upt(&x.1)).collect();
+    let base: Vec<_> = got.iter().map(upt).collect();
+    if rest != base {
+        let i = rest.iter().zip(base.iter()).position(|(a, b)| a != b).unwrap_or(0);
+        r.dev("C19/a-refused-segment-changes-later-estimates", "refused-segment", || json!({"scenario": s, "refused_segment_flags": flags, "fragment": fragment, "before_packet": pos, "first_difference_at_packet": i, "without": format!("{:?}", base.get(i)), "with": format!("{:?}", rest.get(i))}));
+    }
 }
 
 /// The same pair of timestamps through the crate's other public entry point, `calculate_uptime_improved` with an
